@@ -428,6 +428,28 @@ pub proof fn lemma_nt_identities(c1: NonnegativeCone<F>, c0: NonnegativeCone<F>,
     lemma_mul_Winv_real(winvs, winvs0, s, c1.w@, f_one(), f_zero(), i);
 }
 
+// C13 "(W'W) z = s" and "multiplication by W and by its inverse are mutually inverse" for the nonnegative cone (W is diagonal, so
+// transpose consistency is trivial): with w_i w_i = s_i / z_i (lemma_nt_identities), Hs z = s entry-wise; and (x w) / w = x = (x / w) w
+pub proof fn lemma_nt_hs_z_is_s(s: F, z: F)
+    requires s.v() > 0real, z.v() > 0real,
+    ensures ({ let w = f_sqrt(f_div(s, z)); f_mul(f_mul(w, w), z).v() == s.v() && f_mul(w, f_mul(w, z)).v() == s.v() }),
+{
+    broadcast use real_arith;
+    lemma_nt_scalar(s, z);
+    let w = f_sqrt(f_div(s, z)).v(); let sv = s.v(); let zv = z.v();
+    assert((w * w) * zv == sv) by(nonlinear_arith) requires w * w == sv / zv, zv > 0real;
+    assert(w * (w * zv) == (w * w) * zv) by(nonlinear_arith);
+}
+pub proof fn lemma_w_winv_inverse(x: F, w: F)
+    requires w.v() != 0real,
+    ensures f_div(f_mul(x, w), w).v() == x.v(), f_mul(f_div(x, w), w).v() == x.v(),
+{
+    broadcast use real_arith;
+    let a = x.v(); let b = w.v();
+    assert((a * b) / b == a) by(nonlinear_arith) requires b != 0real;
+    assert((a / b) * b == a) by(nonlinear_arith) requires b != 0real;
+}
+
 // ------------------------------------------------------------------ ZeroCone
 impl ZeroCone<F> {
 //@fn file=src/solver/core/cones/zerocone.rs in="impl<T> ZeroCone<T>" name=new rules=R1,R2 ret=r
